@@ -1,8 +1,8 @@
-"""unit handle_slices: the two E6 statement slices of handle_htlc (classification prefix with the
-no-side-effect clause; gate under the table lock).  Kept apart from unit handle so that a change
-that moves the slice boundaries (exit 2 here) does not block the whole-function verification."""
+"""unit handle_slices: the E6 statement slice handle_htlc#prefix (classification prefix with the
+no-side-effect clause).  Kept apart from unit handle so that a change that moves the slice
+boundaries (exit 2 here) does not block the whole-function verification."""
 from units import handle
 
 
 def build(u):
-    handle.build(u, slices_only=handle.emit_slices, whole=False)
+    handle.build(u, slices_only=handle.emit_prefix_slice, whole=False)
